@@ -212,14 +212,4 @@ inductive HsReach (ngpu acc pages : Nat) : HsW → Prop
   | init : HsReach ngpu acc pages { h := { ngpu := ngpu, acc := acc, pages := pages } }
   | step {w : HsW} (o : HsOp) : HsReach ngpu acc pages w → w.enabled o → HsReach ngpu acc pages (w.step o)
 
-/-- `findRequestingGPUs` followed by the two nested loops of `processShootdownCompleteRsp` and
-    `preparePageMigrationRspToMMU` (as repaired: GPU order, not Go map order): the GPUs `1..ngpu`
-    that have an entry in `GPUReqToVAddrMap` (`m` lists the entries of the Go map in any order), each
-    with its pages in slice order; the result pairs the 0-based GPU id with the page address -/
-def migOrder (ngpu : Nat) (m : List (Nat × List Nat)) : List (Nat × Nat) :=
-  (List.range ngpu).flatMap fun i =>
-    match m.lookup (i + 1) with
-    | some vs => vs.map fun v => (i, v)
-    | none => []
-
 end C19
